@@ -284,6 +284,9 @@ type ReqSc struct {
 	// Ctx (direct HandleRequest callers only): 0 a live context, 1 a context that is already cancelled, 2 a context
 	// that the handler of the item whose token starts with "cc" cancels. None of this may change the response.
 	Ctx int `json:"ctx,omitempty"`
+	// Pad: the first item carries a non-critical message extension with a byte string of this many bytes (large but
+	// legal requests: the server accepts up to 1 MiB)
+	Pad int `json:"pad,omitempty"`
 }
 
 // genHdr draws the optional header elements of a request (half of the requests carry none).
@@ -382,6 +385,13 @@ func buildRequest(rs *ReqSc, prefix string) *kmip.RequestMessage {
 			bi.MessageExtension = &kmip.MessageExtension{VendorIdentification: "verif", CriticalityIndicator: false, VendorExtension: ttlv.Struct{}}
 		case "critical":
 			bi.MessageExtension = &kmip.MessageExtension{VendorIdentification: "verif", CriticalityIndicator: true, VendorExtension: ttlv.Struct{}}
+		}
+		if i == 0 && rs.Pad > 0 && bi.MessageExtension == nil {
+			pad := make([]byte, rs.Pad)
+			for k := range pad {
+				pad[k] = byte(k*7 + rs.Pad)
+			}
+			bi.MessageExtension = &kmip.MessageExtension{VendorIdentification: "verif-pad", CriticalityIndicator: false, VendorExtension: ttlv.Struct{{Tag: 0x420094, Value: pad}}}
 		}
 		req.BatchItem = append(req.BatchItem, bi)
 	}
